@@ -22,6 +22,7 @@ TraceCfg(t) == [s |-> [lineLen |-> t.cfg.s.lineLen, crlf |-> t.cfg.s.crlf, cls |
 \* projection of a specification state onto what the driver can observe
 Proj == [wire |-> wire, tp |-> tp, armed |-> (timer = "armed"),
          h |-> calls.h, u |-> calls.u, mw |-> calls.mw, busy |-> (pending # "none"), torn |-> torn]
+\* (o.consultedOK - the identity the chain was consulted with - is judged by ServerConnObs)
 ObsOf(o) == [wire |-> o.wire, tp |-> o.tp, armed |-> o.armed, h |-> o.h, u |-> o.u, mw |-> o.mw,
              busy |-> o.busy, torn |-> o.torn]
 
